@@ -7,6 +7,10 @@ all are completed when run returns, requests after the return are refused at onc
 
 Code side (`harness fault`): the REAL client/broker under scenario x every transport-operation
 index k x {injected error, EOF} x clean causes x seeded schedules on an executor with real wakers.
+Scenarios (harness/src/bin/fault.rs SCENARIOS): objsvc call listener channel sync mixed lifetime mixed14
+twotasks calldrop calldrop14 -- the last two drop the PendingReply of unanswered calls at seeded points
+before / after the stop was requested (Selected::AbortFunctionCall in the main loop and while draining).
+A `run` that spins inside one poll is caught by the spin guard of the victim's transport (`hang:`).
 The monitor evaluates the property statement on the Rust run alone; the correspondence feeds the
 observed transport results to the extracted automaton and compares result and waiter outcomes.
 """
@@ -42,7 +46,7 @@ PINS = {
                       "resolved s' = (nextw s, Dropped) :: resolved s /\\ nextw s' = nextw s + 1 else s' = s)",
 }
 # (schedules per (scenario, kind, k), shards, scenarios)
-SIZES = {"quick": (8, 8, 9), "thorough": (384, 16, 9)}
+SIZES = {"quick": (8, 8, 11), "thorough": (384, 16, 11)}
 
 
 def build(o):
@@ -131,12 +135,18 @@ def correspondence(o, schedules, shards, nscen, seed):
         "evaluations": compared,
         "distinct_nontrivial": st.get("distinct_nontrivial", 0),
         "rule": "one evaluation = one complete run of the real broker + peer + victim client (scenario, kind, k, schedule "
-                "seed) to executor quiescence, judged by the monitor, and replayed through the extracted automaton with "
-                "equal result class and equal outcome for every labelled waiter. distinct_nontrivial = distinct (scenario, "
-                "kind, k, observed summary) with at least 4 completed transport operations (the handshake alone is 3).",
+                "seed) to executor quiescence, judged by the monitor (no panic, every task finished, no task spinning "
+                "inside one poll, result class, late operations refused, peer served, broker idle), and replayed through "
+                "the extracted automaton with equal result class and equal outcome for every labelled waiter (value / "
+                "shutdown / dropped by the application). Scenarios: objsvc, call, listener, channel, sync, mixed, lifetime, "
+                "mixed14, twotasks, calldrop, calldrop14 (reply futures of unanswered calls dropped at seeded points before "
+                "and after the stop was requested; reply_drops counts where they fell). distinct_nontrivial = distinct "
+                "(scenario, kind, k, observed summary) with at least 4 completed transport operations (the handshake "
+                "alone is 3).",
         "samples": st.get("samples", []),
         "input_distribution": {k: st.get(k) for k in ("cases", "case_kinds", "scenarios", "result_classes", "fault_fired",
-                                                      "transport_ops_per_scenario", "ops", "labelled_waiters", "polls")},
+                                                      "transport_ops_per_scenario", "ops", "labelled_waiters", "polls",
+                                                      "reply_drops")},
         "monitor_failures": len(mon),
         "monitor_failures_by_kind": per_kind,
         "disagreements": ndiff,
@@ -153,7 +163,8 @@ def run(tier, seed):
         "UnboundedReceiver that is dropped drops the queued requests; mpsc FIFO order",
         "the harness executor (real wakers, one woken task per step chosen by the seeded Rng), the fault-injecting "
         "transport wrapper and its operation counter, the reconstruction of unobservable inputs in "
-        "extract/clientlife_driver.ml (selection time of queued requests, requests sent by Drop impls, handle counts)",
+        "extract/clientlife_driver.ml (selection time of queued requests, requests sent by Drop impls, handle counts, "
+        "the selection of a dropped call's abort while draining or below protocol 1.16)",
         "AsyncTransport has no EOF value: a closed transport reports an error; the EOF kind drops the inner channel and "
         "returns its own error value",
     ]
